@@ -584,6 +584,11 @@ static Token *subst(Token *tok, MacroArg *args) {
     if (arg && equal(tok->next, "##")) {
       Token *rhs = tok->next->next;
 
+      // The first token of the result stands where the parameter `tok`
+      // stood, so it takes the white space of `tok`, not the white space
+      // it had inside the macro invocation.
+      Token *first = cur;
+
       if (arg->tok->kind == TK_EOF) {
         MacroArg *arg2 = find_arg(args, rhs);
         if (arg2) {
@@ -592,12 +597,18 @@ static Token *subst(Token *tok, MacroArg *args) {
         } else {
           cur = cur->next = copy_token(rhs);
         }
+        if (cur != first) {
+          first->next->at_bol = tok->at_bol;
+          first->next->has_space = tok->has_space;
+        }
         tok = rhs->next;
         continue;
       }
 
       for (Token *t = arg->tok; t->kind != TK_EOF; t = t->next)
         cur = cur->next = copy_token(t);
+      first->next->at_bol = tok->at_bol;
+      first->next->has_space = tok->has_space;
       tok = tok->next;
       continue;
     }
